@@ -201,11 +201,30 @@ def write_if_changed(path, content):
     return True
 
 
+COQ_DIRS = ["Base", "Spec", "Model", "Gen", "Proofs", "Properties", "Extract"]
+
+
+def coq_project():
+    """_CoqProject is derived from the .v files present (coqdep orders them); rewritten only
+    when the file set changes"""
+    files = []
+    for d in COQ_DIRS:
+        dd = os.path.join(COQ, d)
+        if os.path.isdir(dd):
+            files += sorted(os.path.join(d, f) for f in os.listdir(dd) if f.endswith(".v") and not f.startswith("."))
+    txt = ("-Q . ISAL\n-arg -w -arg -notation-overridden,-deprecated-hint-without-locality,"
+           "-deprecated-instance-without-locality,-deprecated-syntactic-definition\n" + "\n".join(files) + "\n")
+    return write_if_changed(os.path.join(COQ, "_CoqProject"), txt)
+
+
 def coq_makefile():
     mk = os.path.join(COQ, "Makefile")
-    cp = os.path.join(COQ, "_CoqProject")
-    if not os.path.exists(mk) or os.path.getmtime(mk) < os.path.getmtime(cp):
+    changed = coq_project()
+    if changed or not os.path.exists(mk):
         sh(["coq_makefile", "-f", "_CoqProject", "-o", "Makefile"], cwd=COQ)
+    lc = os.path.join(COQ, ".lia.cache")
+    if os.path.exists(lc) and os.path.getsize(lc) > 50 << 20:
+        os.remove(lc)
 
 
 def coq_make(targets, timeout=1800):
@@ -263,24 +282,27 @@ def coq_assumptions(vfile):
 
 # ----------------------------------------------------------------------------- OCaml drivers
 
-def ocaml_driver(name):
-    """build /verif/ocaml/<name>_driver.ml against coq/Extract/out/Isal.ml (everything the
-    Coq development extracts) and the hand-written glue ocaml/conv.ml.  Returns the binary."""
+def ocaml_driver(name, ext=None):
+    """build /verif/ocaml/<name>_driver.ml against coq/Extract/out/<ext>.ml (what
+    coq/Extract/<ext>.v extracts; compiled under the module name Isal so that conv.ml and
+    every driver just `open Isal`) and the hand-written glue ocaml/conv.ml.  Returns the binary."""
+    ext = ext or name.capitalize()
     outdir = os.path.join(VERIF, "ocaml", "_build")
     os.makedirs(outdir, exist_ok=True)
     exe = os.path.join(outdir, name + "_driver")
-    extracted = os.path.join(COQ, "Extract", "out", "Isal.ml")
+    extracted = os.path.join(COQ, "Extract", "out", ext + ".ml")
     conv = os.path.join(VERIF, "ocaml", "conv.ml")
     drv = os.path.join(VERIF, "ocaml", name + "_driver.ml")
     with Lock("ocaml"):
-        lib = os.path.join(outdir, "lib")
+        lib = os.path.join(outdir, "lib-" + ext)
         stamp = os.path.join(lib, "Isal.cmx")
         if (not os.path.exists(stamp) or
                 any(os.path.getmtime(stamp) < os.path.getmtime(p) for p in (extracted, conv))):
             shutil.rmtree(lib, ignore_errors=True)
             os.makedirs(lib)
-            for p in (extracted, extracted + "i", conv):
-                shutil.copy(p, lib)
+            shutil.copy(extracted, os.path.join(lib, "Isal.ml"))
+            shutil.copy(extracted + "i", os.path.join(lib, "Isal.mli"))
+            shutil.copy(conv, lib)
             sh(["ocamlfind", "ocamlopt", "-O3", "-w", "-a", "-c", "Isal.mli", "Isal.ml", "conv.ml"],
                cwd=lib, timeout=900)
         need = (not os.path.exists(exe) or
@@ -410,14 +432,19 @@ def first_coq_error(log):
     return {"file": "?", "line": 0, "error": log[-600:]}
 
 
-def coq_step(rep, pid, gen=None, extra_targets=(), timeout=1800):
-    """regenerate Gen files, build the extraction (models only) and the property's
-    obligations.  Returns (proofs_ok, broken-info or None)."""
+def coq_step(rep, pid, gen=None, extra_targets=(), timeout=1800, extract=()):
+    """regenerate Gen files, build the extractions named in `extract` (models only: they
+    still build when a proof is broken) and the property's obligations.
+    Returns (proofs_ok, broken-info or None)."""
     for path, content in (gen or {}).items():
         write_if_changed(os.path.join(COQ, path), content)
-    ok_x, log_x = coq_make(["Extract/Isal.vo"], timeout=timeout)
-    if not ok_x:
-        raise RuntimeError("model/extraction build failed: %s" % first_coq_error(log_x))
+    if isinstance(extract, str):
+        extract = (extract,)
+    if extract:
+        os.makedirs(os.path.join(COQ, "Extract", "out"), exist_ok=True)
+        ok_x, log_x = coq_make(["Extract/%s.vo" % e for e in extract], timeout=timeout)
+        if not ok_x:
+            raise RuntimeError("model/extraction build failed: %s" % first_coq_error(log_x))
     vfile = "Properties/%s.v" % pid
     ok, log = coq_make([vfile + "o"] + list(extra_targets), timeout=timeout)
     names = coq_obligations(vfile)
